@@ -32,6 +32,9 @@ def configs(tier):
     # a given minimum duration (0 included) replaces the cycle count in the sample-wise detector
     for dur in ('zero', 'sym'):
         out.append({'rows': 2, 'n': 5, 'centre': 'peak', 'm_src': 'thr', 'amp': False, 'dur': dur})
+    # the same burst options (with a nested filter_kwargs dict) used for two analyses with different min_n_cycles
+    for src in ('thr', 'burst'):
+        out.append({'rows': 2, 'n': 5, 'centre': 'peak', 'm_src': src, 'amp': False, 'reuse': True})
     # five cycles: a long run followed by a short one
     out.append({'rows': 5, 'n': 11, 'centre': 'peak', 'm_src': 'thr', 'amp': False})
     if not q:
@@ -89,18 +92,38 @@ def run(ctx, cfg):
     saved = ff.compute_shape_features
     ff.compute_shape_features = lambda s, fs, fr, center_extrema='peak', find_extrema_kwargs=None: \
         pd.DataFrame({c: list(v) for c, v in table.items()})
+    n_calls = 1
+    bk_arg = dict(burst_kwargs) if burst_kwargs or src != 'none' else None
     try:
+        if cfg.get('reuse'):
+            # an earlier analysis with the same option objects and another minimum-cycle count
+            m_0 = ctx.integer('m_0')
+            ctx.assume(m_0 >= 0)
+            fk = {'n_cycles': 4}
+            bk_arg = dict(burst_kwargs)
+            bk_arg['filter_kwargs'] = fk
+            first_bk = bk_arg
+            if src == 'burst':
+                first_bk = dict(bk_arg)           # shares the nested filter_kwargs dict
+                first_bk['min_n_cycles'] = m_0
+            first_thr = dict(thresholds)
+            if src == 'thr':
+                first_thr['min_n_cycles'] = m_0
+            ff.compute_features(sig, 500.0, (8.0, 12.0), center_extrema=centre, burst_method='amp',
+                                burst_kwargs=first_bk, threshold_kwargs=first_thr)
+            n_calls = 2
         df = ff.compute_features(sig, 500.0, (8.0, 12.0), center_extrema=centre, burst_method='amp',
-                                 burst_kwargs=dict(burst_kwargs) if burst_kwargs or src != 'none' else None,
-                                 threshold_kwargs=dict(thresholds))
+                                 burst_kwargs=bk_arg, threshold_kwargs=dict(thresholds))
     except Exception as e:
         ctx.fail(exc_label(e))
         return
     finally:
         ff.compute_shape_features = saved
-    if not ctx.prove(len(st.dual) == 1, 'the sample-wise detector is run exactly once'):
+    if not ctx.prove(len(st.dual) == n_calls, 'the sample-wise detector is run exactly once per analysis'):
         return
-    call = st.dual[0]
+    call = st.dual[-1]
+    if cfg.get('reuse'):
+        ctx.prove(call['kw'] == {'n_cycles': 4}, 'detector run with exactly the given filter options (got %r)' % (call['kw'],))
     mask = call['out']
     want_amp = (0.5, 1.5) if cfg['amp'] else (1, 2)
     ctx.prove_all([
